@@ -49,16 +49,22 @@ static int cache_put(enum policy pol, struct aws_cache *C, const void *key, void
 
 /* put of a key that is in the cache: value replaced, entry moves to the back, nothing evicted (also in a full cache) */
 static void put_existing(enum policy pol) {
-    struct aws_cache *C = cache_build(BIT(SLOT), ALL, LHT_NONE);
+    /* window: [front] (hidden) [predecessor][the entry][successor] (hidden) [back] */
+    struct aws_cache *C = cache_build(BIT(SLOT), BIT(FRONT) | BIT(SLOT - 1) | BIT(SLOT + 1) | BIT(BACK), LHT_NONE);
     size_t max_items = C->max_items;
-    const void *key = lht_matching_key(SLOT);
+    const void *key;
     void *val = lht_any_value();
     __CPROVER_assume(lht_abs_visible(&g_a, SLOT));
     g_M = g_a.node[SLOT];
     bool has_dv = C->table.user_on_value_destroy != NULL, has_dk = C->table.user_on_key_destroy != NULL;
-    bool other_ptr = g_a.key[SLOT] != key;
+    int r;
 
-    int r = cache_put(pol, C, key, val);
+    /* the re-inserted key is equal by comparison but a different pointer (same-pointer re-insertion: unit put_existing of
+     * the linked hash table layer; the cache code does not look at key pointers) */
+    key = LHT_MATCHING_KEY_B(SLOT);
+    r = cache_put(pol, C, key, val);
+
+    bool other_ptr = g_a.key[SLOT] != key;
 
     struct aws_linked_hash_table_node *fresh = (struct aws_linked_hash_table_node *)g_m.calloc_last;
     __CPROVER_assert(r == AWS_OP_SUCCESS, "put over an existing key succeeds");
@@ -71,7 +77,6 @@ static void put_existing(enum policy pol) {
     RETAINED(C, fresh, key, val);
     g_opkey = key;
     if (lht_abs_size(&g_a) == max_items) CANARY("existing key in a full cache: nothing evicted"); else CANARY("existing key, room left");
-    if (other_ptr) CANARY("existing key under another pointer");
     LHT_POSITION_CANARIES(SLOT);
 }
 void h_fifo_put_existing(void) { put_existing(FIFO); }
@@ -79,35 +84,51 @@ void h_lifo_put_existing(void) { put_existing(LIFO); }
 void h_lru_put_existing(void) { put_existing(LRU); }
 
 /* put of a new key while there is room (or the hash table cannot create the entry): appended, nothing evicted */
-static void put_new_room(enum policy pol) {
-    struct aws_cache *C = cache_build(0, BIT(0) | BIT(1) | BIT(LHT_K - 2) | BIT(LHT_K - 1), LHT_NONE);
+static int put_new_room(enum policy pol, bool empty) {
+    /* window: [front] (hidden entries) [back]; a put of a new key touches the back only.  The empty cache is a unit of
+     * its own (in the verifier's eyes the eviction branch would otherwise read a key out of the tail sentinel) */
+    struct aws_cache *C = cache_build(empty ? 0 : BIT(BACK), empty ? 0 : BIT(FRONT), LHT_NONE);
     size_t max_items = C->max_items;
     __CPROVER_assume(lht_abs_size(&g_a) < max_items || g_m.create_fails);
-    const void *key = lht_new_key();
+    const void *key;
     void *val = lht_any_value();
+    int r;
 
-    int r = cache_put(pol, C, key, val);
+    key = LHT_NEW_KEY_A; /* NULL as a new key: unit put_new of the linked hash table layer */
+    r = cache_put(pol, C, key, val);
 
     struct aws_linked_hash_table_node *fresh = (struct aws_linked_hash_table_node *)g_m.calloc_last;
     if (r == AWS_OP_SUCCESS) {
         lht_abs_append(&g_e, fresh, key, val, LHT_NEW);
         LHT_ASSERT_CALLS(0, NULL, 0, NULL, 0, NULL, 1);
         RETAINED(C, fresh, key, val);
-        if (lht_abs_size(&g_a) == 0) CANARY("first entry"); else CANARY("room left: nothing evicted");
-        if (lht_abs_size(&g_e) == max_items) CANARY("cache is full now");
     } else {
         __CPROVER_assert(g_m.create_fails, "put of a new key fails only when the hash table cannot create the entry");
         LHT_ASSERT_CALLS(0, NULL, 0, NULL, 1, fresh, 1);
-        if (lht_abs_size(&g_a) == max_items) CANARY("hash table could not create the entry (full cache): nothing changed, nothing evicted");
-        else CANARY("hash table could not create the entry: nothing changed");
     }
     lht_check(&g_e);
     __CPROVER_assert(lht_abs_size(&g_e) <= max_items, "capacity: never more than max_items entries");
     CACHE_HEADER_KEPT(C, max_items);
+    return r;
 }
-void h_fifo_put_new_room(void) { put_new_room(FIFO); }
-void h_lifo_put_new_room(void) { put_new_room(LIFO); }
-void h_lru_put_new_room(void) { put_new_room(LRU); }
+#define ROOM_CANARIES(r)                                                                                               \
+    do {                                                                                                               \
+        if ((r) == AWS_OP_SUCCESS) {                                                                                   \
+            if (lht_abs_size(&g_e) == g_C->max_items) CANARY("appended, nothing evicted; cache is full now"); else CANARY("appended, nothing evicted; room left"); \
+        } else if (lht_abs_size(&g_a) == g_C->max_items) CANARY("hash table could not create the entry (full cache): nothing changed, nothing evicted"); \
+        else CANARY("hash table could not create the entry: nothing changed");                                         \
+    } while (0)
+#define FIRST_CANARIES(r)                                                                                              \
+    do {                                                                                                               \
+        if ((r) == AWS_OP_SUCCESS) { if (g_C->max_items == 1) CANARY("first entry of a cache of capacity 1: retained"); else CANARY("first entry"); } \
+        else CANARY("hash table could not create the entry: cache stays empty");                                       \
+    } while (0)
+void h_fifo_put_new_room(void) { int r = put_new_room(FIFO, false); ROOM_CANARIES(r); }
+void h_lifo_put_new_room(void) { int r = put_new_room(LIFO, false); ROOM_CANARIES(r); }
+void h_lru_put_new_room(void) { int r = put_new_room(LRU, false); ROOM_CANARIES(r); }
+void h_fifo_put_first(void) { int r = put_new_room(FIFO, true); FIRST_CANARIES(r); }
+void h_lifo_put_first(void) { int r = put_new_room(LIFO, true); FIRST_CANARIES(r); }
+void h_lru_put_first(void) { int r = put_new_room(LRU, true); FIRST_CANARIES(r); }
 
 /* put of a new key into a FULL cache (any max_items >= 1): appended, and exactly one entry evicted:
  *   FIFO / LRU : the front (oldest inserted / least recently used)      -> window: slot 0 is the front
@@ -115,16 +136,19 @@ void h_lru_put_new_room(void) { put_new_room(LRU); }
  * The evicted entry's value and key destructors run once, its node is released once, the new entry is retained. */
 static void put_new_full(enum policy pol) {
     size_t xi = pol == LIFO ? BACK : FRONT;
-    struct aws_cache *C = cache_build(BIT(FRONT) | BIT(BACK), ALL, LHT_NONE);
+    /* window: FIFO/LRU [front][its successor] (hidden) [back];  LIFO [front] (hidden) [predecessor of the back][back] */
+    struct aws_cache *C = cache_build(BIT(xi), pol == LIFO ? (BIT(FRONT) | BIT(BACK - 1)) : (BIT(FRONT + 1) | BIT(BACK)), LHT_NONE);
     size_t max_items = C->max_items;
     __CPROVER_assume(lht_abs_size(&g_a) == max_items && !g_m.create_fails);
     __CPROVER_assume(lht_abs_visible(&g_a, xi));
     g_X = g_a.node[xi];
-    const void *key = lht_new_key();
+    const void *key;
     void *val = lht_any_value();
     bool has_dv = C->table.user_on_value_destroy != NULL, has_dk = C->table.user_on_key_destroy != NULL;
+    int r;
 
-    int r = cache_put(pol, C, key, val);
+    key = LHT_NEW_KEY_A; /* NULL as a new key: unit put_new of the linked hash table layer */
+    r = cache_put(pol, C, key, val);
 
     struct aws_linked_hash_table_node *fresh = (struct aws_linked_hash_table_node *)g_m.calloc_last;
     __CPROVER_assert(r == AWS_OP_SUCCESS, "put into a full cache succeeds");
@@ -139,7 +163,6 @@ static void put_new_full(enum policy pol) {
     else if (max_items == 2) CANARY("capacity 2");
     else CANARY("capacity 3 or more");
     if (max_items > 1000) CANARY("large full cache");
-    if (key == NULL) CANARY("NULL key");
 }
 void h_fifo_put_new_full(void) { put_new_full(FIFO); }
 void h_lifo_put_new_full(void) { put_new_full(LIFO); }
@@ -149,14 +172,16 @@ void h_lru_put_new_full(void) { put_new_full(LRU); }
 static void find_common(bool lru, bool existing) {
     struct aws_cache *C = cache_build(existing ? BIT(SLOT) : 0, ALL, LHT_NONE);
     size_t max_items = C->max_items;
-    const void *key = existing ? lht_matching_key(SLOT) : lht_new_key();
+    const void *key;
     if (existing) {
         if (lru) __CPROVER_assume(lht_abs_visible(&g_a, SLOT));
         g_M = g_a.node[SLOT];
     }
     void *out = (void *)&g_m;
+    int r;
 
-    int r = lru ? s_lru_cache_find(C, key, &out) : aws_cache_base_default_find(C, key, &out);
+    LHT_EITHER(key, existing ? LHT_MATCHING_KEY_A(SLOT) : LHT_NEW_KEY_A, existing ? LHT_MATCHING_KEY_B(SLOT) : LHT_NEW_KEY_B,
+               r = lru ? s_lru_cache_find(C, key, &out) : aws_cache_base_default_find(C, key, &out));
 
     __CPROVER_assert(r == AWS_OP_SUCCESS, "find never fails");
     __CPROVER_assert(out == (existing ? g_a.val[SLOT] : NULL), "find: the value stored under an equal key, NULL when there is none");
@@ -179,14 +204,16 @@ void h_default_find_miss(void) { find_common(false, false); CANARY("miss: nothin
 static void remove_common(bool existing) {
     struct aws_cache *C = cache_build(existing ? BIT(SLOT) : 0, ALL, LHT_NONE);
     size_t max_items = C->max_items;
-    const void *key = existing ? lht_matching_key(SLOT) : lht_new_key();
+    const void *key;
     if (existing) {
         __CPROVER_assume(lht_abs_visible(&g_a, SLOT));
         g_M = g_a.node[SLOT];
     }
     bool has_dv = C->table.user_on_value_destroy != NULL, has_dk = C->table.user_on_key_destroy != NULL;
+    int r;
 
-    int r = aws_cache_base_default_remove(C, key);
+    LHT_EITHER(key, existing ? LHT_MATCHING_KEY_A(SLOT) : LHT_NEW_KEY_A, existing ? LHT_MATCHING_KEY_B(SLOT) : LHT_NEW_KEY_B,
+               r = aws_cache_base_default_remove(C, key));
 
     __CPROVER_assert(r == AWS_OP_SUCCESS, "remove never fails");
     if (existing) {
